@@ -264,11 +264,46 @@ def run_sub_enum(sub, tier, seed, shard, nshards, known):
     return res
 
 
+def regression_sub(mod, subs):
+    """Replay tier: the minimal failing cases of every repaired defect (and of corrected false alarms), committed under
+    regressions/<property>/*.json (same format as replays/). Each is run through the sub-check it came from, on every run."""
+    import glob
+    d = os.path.join(os.path.dirname(os.path.dirname(os.path.abspath(__file__))), 'regressions', mod.PROPERTY)
+    files = sorted(glob.glob(os.path.join(d, '*.json')))
+    if not files:
+        return None
+    byname = {s_.name: s_ for s_ in subs}
+    docs = []
+    for f in files:
+        doc = json.load(open(f))
+        if doc.get('sub') in byname:
+            docs.append((os.path.basename(f), doc))
+
+    def cases(tier):
+        for name, doc in docs:
+            yield {'file': name, 'sub': doc['sub'], 'case': doc['case']}
+
+    def run_case(c):
+        out = byname[c['sub']].run_case(c['case'])
+        out.nontrivial = True
+        out.feat('saved-' + c['sub'])
+        return out
+    return Sub('regressions', run_case, cases=cases, distinct_by_construction=True)
+
+
+def all_subs(mod, tier):
+    subs = list(mod.subchecks(tier))
+    reg = regression_sub(mod, subs)
+    if reg is not None:
+        subs.append(reg)
+    return subs
+
+
 def run_child(mod, tier, seed, shard, nshards, only=None):
     known = load_known(mod.PROPERTY)
     budget = 20.0 if tier == 'quick' else 90.0
     out = []
-    for sub in mod.subchecks(tier):
+    for sub in all_subs(mod, tier):
         if only and sub.name not in only:
             continue
         if sub.strategy is not None:
@@ -282,7 +317,7 @@ def run_child(mod, tier, seed, shard, nshards, only=None):
 def replay(mod, path):
     doc = json.load(open(path))
     known = load_known(mod.PROPERTY)
-    subs = {s.name: s for s in mod.subchecks('quick')}
+    subs = {s.name: s for s in all_subs(mod, 'quick')}
     sub = subs[doc['sub']]
     res = SubResult(sub.name)
     rec = _Recorder(sub, known, res, set())
